@@ -229,3 +229,46 @@ package sqlx
 //@   prop C01, C11
 //@   opaque startSpan, endSpan, Inc
 //@   ensures [under-breaker-with-acceptable] calls(db.brk.DoWithAcceptable) == 1 && err == ret(DoWithAcceptable) && ismethod(arg(db.brk.DoWithAcceptable, 1), db, "acceptable")
+
+// ---------------- bulk inserter: a task container of the periodical executor (C16) ----------------
+// Rows are kept in insertion order; the batch is full at maxBulkRows; RemoveAll hands over the whole batch and
+// starts an empty one; Execute issues ONE insert with the rows in order (prefix, rows joined by ", ", suffix).
+//@ func (*dbInserter).AddTask
+//@   prop C16
+//@   requires in != nil
+//@   ensures [appended-in-order] len(in.values) == old(len(in.values)) + 1 && in.values[len(in.values) - 1] == unbox(task, string) && forall(j, 0, old(len(in.values)), in.values[j] == old(in.values[j]))
+//@   ensures [full-at-threshold] result == (len(in.values) >= 1000)
+//@ func (*dbInserter).RemoveAll
+//@   prop C16
+//@   requires in != nil
+//@   ensures [whole-batch-handed-over] typeis(result, []string) && unbox(result, []string) == old(in.values) && len(in.values) == 0
+//@ func (*dbInserter).Execute
+//@   prop C16
+//@   opaque Errorf
+//@   requires in != nil
+//@   let values = unbox(tasks, []string)
+//@   ensures [empty-batch-no-statement] len(values) == 0 ==> calls(Exec) == 0
+//@   ensures [one-statement-rows-in-order] len(values) > 0 ==> calls(in.conn.Exec) == 1 && arg(strings.Join, 0, 1) == values && arg(strings.Join, 1, 1) == ", " && arg(strings.Join, 0, 2)[0] == in.stmt.prefix && arg(strings.Join, 0, 2)[1] == ret(strings.Join, 0, 1)
+//@   ensures [result-reported] len(values) > 0 && in.resultHandler != nil ==> calls(in.resultHandler) == 1 && arg(in.resultHandler, 0) == ret(Exec, 0) && arg(in.resultHandler, 1) == ret(Exec, 1)
+//@ func (*BulkInserter).Insert
+//@   prop C16
+//@   opaque format, Add
+//@   requires bi != nil
+//@   ensures [format-error-not-added] ret(format, 1) != nil ==> result == ret(format, 1) && calls(Add) == 0
+//@   ensures [row-added-once] ret(format, 1) == nil ==> calls(bi.executor.Add) == 1 && unbox(arg(bi.executor.Add, 1), string) == ret(format, 0) && result == nil && calls(format) == 1 && arg(format, 0) == bi.stmt.valueFormat && arg(format, 1) == args
+//@ func (*BulkInserter).UpdateStmt
+//@   prop C16
+//@   opaque parseInsertStmt, Flush, Sync
+//@   requires bi != nil
+//@   ensures [bad-statement-keeps-old] ret(parseInsertStmt, 1) != nil ==> result == ret(parseInsertStmt, 1) && calls(Flush) == 0 && calls(Sync) == 0
+//@   ensures [pending-rows-flushed-with-the-old-statement-first] ret(parseInsertStmt, 1) == nil ==> calls(bi.executor.Flush) == 1 && calls(bi.executor.Sync) == 1 && before(Flush, Sync) && result == nil
+//@ func (*BulkInserter).UpdateOrDelete
+//@   prop C16
+//@   opaque Flush
+//@   requires bi != nil
+//@   ensures [pending-rows-flushed-before] calls(bi.executor.Flush) == 1 && calls(fn) == 1 && before(Flush, fn)
+//@ func NewBulkInserter
+//@   prop C16
+//@   opaque parseInsertStmt, NewPeriodicalExecutor
+//@   ensures [bad-statement] ret(parseInsertStmt, 1) != nil ==> result0 == nil && result1 == ret(parseInsertStmt, 1)
+//@   ensures [inserter-is-the-executors-container] ret(parseInsertStmt, 1) == nil ==> result1 == nil && result0 != nil && result0.inserter != nil && result0.inserter.conn == conn && result0.executor == ret(executors.NewPeriodicalExecutor) && unbox(arg(executors.NewPeriodicalExecutor, 1), ptr(dbInserter)) == result0.inserter && arg(executors.NewPeriodicalExecutor, 0) == 1000000000
